@@ -1,6 +1,7 @@
 package props
 
 import (
+	"fmt"
 	"go/ast"
 	"go/token"
 	"go/types"
@@ -252,6 +253,153 @@ func runC12(c *core.Ctx) {
 
 	// (3) provenance in AdjRIBIn.ReplaceFilterChain ---------------------------------------------------
 	replaceChainProvenance(c)
+	refreshRouteCases(c)
+	skipComparesCurrentChain(c)
+}
+
+// skipComparesCurrentChain: replaceImport/ExportFilterChain skip only when the new chain equals the chain it is about to
+// replace, store the new chain in that same field and hand it to the matching table.
+func skipComparesCurrentChain(c *core.Ctx) {
+	p := c.P
+	for _, spec := range []struct{ fn, field, table string }{
+		{srv + ".(*fsmAddressFamily).replaceImportFilterChain", "importFilterChain", "adjRIBIn"},
+		{srv + ".(*fsmAddressFamily).replaceExportFilterChain", "exportFilterChain", "adjRIBOut"},
+	} {
+		f := c.MustFunc(spec.fn)
+		if f == nil {
+			continue
+		}
+		fld := p.Field(srv, "fsmAddressFamily", spec.field)
+		tbl := p.Field(srv, "fsmAddressFamily", spec.table)
+		par := core.ParamObj(f, 0)
+		okEq, okStore, okCall := false, false, false
+		ast.Inspect(f.Decl.Body, func(n ast.Node) bool {
+			switch x := n.(type) {
+			case *ast.CallExpr:
+				k := core.FuncKey(core.Callee(f.Pkg, x))
+				se, isSel := x.Fun.(*ast.SelectorExpr)
+				if k == "routingtable/filter.(Chain).Equal" && isSel && len(x.Args) == 1 {
+					a, b := se.X, x.Args[0]
+					if (core.ObjOf(f.Pkg, a) == par && core.FieldOf(f.Pkg, b) == fld) || (core.ObjOf(f.Pkg, b) == par && core.FieldOf(f.Pkg, a) == fld) {
+						okEq = true
+					}
+				}
+				if isSel && se.Sel.Name == "ReplaceFilterChain" && core.FieldOf(f.Pkg, se.X) == tbl && len(x.Args) == 1 && core.ObjOf(f.Pkg, x.Args[0]) == par {
+					okCall = true
+				}
+			case *ast.AssignStmt:
+				if len(x.Lhs) == 1 && core.FieldOf(f.Pkg, x.Lhs[0]) == fld && core.ObjOf(f.Pkg, x.Rhs[0]) == par {
+					okStore = true
+				}
+			}
+			return true
+		})
+		// every Equal call in the function must be the right one
+		nEq := len(core.Calls(f.Pkg, f.Decl.Body, core.KeyIs("routingtable/filter.(Chain).Equal")))
+		c.Check(okEq && nEq == 1, "skip-compares-current-chain", f.Name()+" skips iff new chain equals "+spec.field, f.Decl.Pos(),
+			"the replacement is skipped on a comparison with another chain than the one being replaced ("+spec.field+"): a replacement whose new chain happens to equal that other chain is dropped although the session's "+spec.field+" differs")
+		c.Check(okStore && okCall, "skip-compares-current-chain", f.Name()+" stores the new chain and hands it to "+spec.table, f.Decl.Pos(), "the new chain is not stored in "+spec.field+" and passed to "+spec.table+".ReplaceFilterChain")
+	}
+}
+
+// refreshRouteCases: AdjRIBOut.RefreshRoute reacts to (current verdict, new verdict, changed) as a policy replacement must.
+func refreshRouteCases(c *core.Ctx) {
+	p := c.P
+	const out = "routingtable/adjRIBOut"
+	f := c.MustFunc(out + ".(*AdjRIBOut).RefreshRoute")
+	if f == nil {
+		return
+	}
+	cur := p.Field(out, "AdjRIBOut", "exportFilterChain")
+	pend := p.Field(out, "AdjRIBOut", "exportFilterChainPending")
+	rm := p.Func(out + ".(*AdjRIBOut).removePath")
+	ad := p.Func(out + ".(*AdjRIBOut).addPath")
+	// locals: (path, reject) of each chain
+	var curPath, curRej, newPath, newRej types.Object
+	ast.Inspect(f.Decl.Body, func(n ast.Node) bool {
+		as, ok := n.(*ast.AssignStmt)
+		if !ok || len(as.Lhs) != 2 || len(as.Rhs) != 1 {
+			return true
+		}
+		call, ok := core.Unparen(as.Rhs[0]).(*ast.CallExpr)
+		if !ok || core.FuncKey(core.Callee(f.Pkg, call)) != "routingtable/filter.(Chain).Process" {
+			return true
+		}
+		se := call.Fun.(*ast.SelectorExpr)
+		switch core.FieldOf(f.Pkg, se.X) {
+		case cur:
+			curPath, curRej = core.ObjOf(f.Pkg, as.Lhs[0]), core.ObjOf(f.Pkg, as.Lhs[1])
+		case pend:
+			newPath, newRej = core.ObjOf(f.Pkg, as.Lhs[0]), core.ObjOf(f.Pkg, as.Lhs[1])
+		}
+		return true
+	})
+	if curPath == nil || newPath == nil || rm == nil || ad == nil {
+		c.Undecided("refresh-case-table", f.Name(), f.Decl.Pos(), "the two policy evaluations (current chain, pending chain) were not found")
+		return
+	}
+	rmCalls := core.Calls(f.Pkg, f.Decl.Body, func(o *types.Func) bool { return o == rm.Obj })
+	adCalls := core.Calls(f.Pkg, f.Decl.Body, func(o *types.Func) bool { return o == ad.Obj })
+	for _, call := range rmCalls {
+		c.Check(len(call.Args) == 2 && core.ObjOf(f.Pkg, call.Args[1]) == curPath, "refresh-case-table", f.Name()+" removePath argument is the current chain's output", call.Pos(), "the path removed from the Adj-RIB-Out on a policy change is not what the CURRENT policy exported")
+	}
+	for _, call := range adCalls {
+		c.Check(len(call.Args) == 2 && core.ObjOf(f.Pkg, call.Args[1]) == newPath, "refresh-case-table", f.Name()+" addPath argument is the pending chain's output", call.Pos(), "the path added to the Adj-RIB-Out on a policy change is not what the NEW policy exports")
+	}
+	type row struct {
+		cr, nr, same   bool
+		wantRm, wantAd bool
+	}
+	rows := []row{{true, true, false, false, false}, {true, false, false, false, true}, {false, true, false, true, false}, {false, false, false, true, true}, {false, false, true, false, false}}
+	for _, r := range rows {
+		env := core.NewEnv()
+		env.Objs[curRej], env.Objs[newRej] = core.BoolVal(r.cr), core.BoolVal(r.nr)
+		// other boolean results of calls (the propagate verdict of checkPropagateUpdate): the case table is about routes
+		// that pass the export rules
+		ast.Inspect(f.Decl.Body, func(n ast.Node) bool {
+			as, ok := n.(*ast.AssignStmt)
+			if !ok || len(as.Rhs) != 1 {
+				return true
+			}
+			if _, isCall := core.Unparen(as.Rhs[0]).(*ast.CallExpr); !isCall {
+				return true
+			}
+			for _, l := range as.Lhs {
+				o := core.ObjOf(f.Pkg, l)
+				if o == nil || o == curRej || o == newRej {
+					continue
+				}
+				if b, isB := o.Type().Underlying().(*types.Basic); isB && b.Kind() == types.Bool {
+					env.Objs[o] = core.BoolVal(true)
+				}
+			}
+			return true
+		})
+		env.Calls["route.(*Path).Compare"] = core.BoolVal(r.same)
+		env.Calls["route.(*Path).Equal"] = core.BoolVal(r.same)
+		reached := func(calls []*ast.CallExpr) (bool, bool) {
+			any := false
+			for _, cl := range calls {
+				h, ok := core.HoldsAt(f, cl, env)
+				if !ok {
+					return false, false
+				}
+				if h {
+					any = true
+				}
+			}
+			return any, true
+		}
+		gotRm, ok1 := reached(rmCalls)
+		gotAd, ok2 := reached(adCalls)
+		construct := fmt.Sprintf("%s case currentReject=%v newReject=%v unchanged=%v", f.Name(), r.cr, r.nr, r.same)
+		if !ok1 || !ok2 {
+			c.Undecided("refresh-case-table", construct, f.Decl.Pos(), "guards not evaluable")
+			continue
+		}
+		c.Check(gotRm == r.wantRm && gotAd == r.wantAd, "refresh-case-table", construct, f.Decl.Pos(),
+			fmt.Sprintf("in this case the Adj-RIB-Out must see remove(old export)=%v add(new export)=%v, the code does remove=%v add=%v: after the policy replacement the Adj-RIB-Out differs from what a session started with the new policy holds (stale old-policy paths stay, or new ones are missing)", r.wantRm, r.wantAd, gotRm, gotAd))
+	}
 }
 
 // replaceChainProvenance: in AdjRIBIn.ReplaceFilterChain the old/withdrawn path comes from the current chain, the new/announced one from the new chain.
